@@ -185,6 +185,36 @@ def judge_prog(case, drvs):
     return want
 
 
+def judge_deep(case, drvs):
+    """Stack depth around the machine's limit (1024 entries): PUSH_BYTE 1 x d, then ADD (or MAX) x (d-1), POP_RET.  The opcode specification
+    says nothing about where the stack ends, so the oracle is differential for the status (both interpreter builds must stop, or not, at the
+    same depth - the second sentence of C07) and the specification value (d, or 1 for MAX) wherever a build reports a finished run."""
+    d, op = case['depth'], case['op']
+    prog = [(2, b'\x01')] * d + [(op, b'')] * (d - 1) + [(0x30, b'')]
+    code = assemble(prog)
+    want = d if op == 6 else 1
+    seen = {}
+    for vname, drv in drvs.items():
+        fid = drv.put_font(vm_font())
+        for cons in (1, 0):
+            try:
+                r = drv.call(b'V' + struct.pack('<IB', fid, cons) + blob(code))
+            except DriverCrash as e:
+                raise Violation('sanitizer:' + e.kind + ':' + e.summary, case, vname + '\n' + e.stderr[-1500:])
+            except DriverHang:
+                raise Inconclusive()
+            if 'error' in r:
+                raise Inconclusive()
+            seen[(vname, cons)] = (bool(r['ok']), r.get('status'), r.get('ret') if r.get('status') == FINISHED else None)
+            if r['ok'] and r.get('status') == FINISHED and r['ret'] != want:
+                raise Violation('return-value-differs-from-opcode-spec', case, '%s cons=%d got=%d want=%d' % (vname, cons, r['ret'], want))
+    for cons in (1, 0):
+        vals = set(seen[(v, cons)] for v in drvs)
+        if len(vals) > 1:
+            raise Violation('interpreter-builds-disagree-at-stack-depth', case, 'cons=%d %s' % (cons, {v: seen[(v, cons)] for v in drvs}))
+    return seen
+
+
 def shape_both(case, drvs):
     if case['kind'] == 'spec':
         try:
@@ -222,6 +252,8 @@ def replay_case(case):
     try:
         if case.get('kind') == 'prog':
             judge_prog(case, drvs)
+        elif case.get('kind') == 'deep':
+            judge_deep(case, drvs)
         else:
             shape_both(case, drvs)
     finally:
@@ -252,6 +284,21 @@ def worker(ctx):
             if names[num] != nm:
                 ctx.report(Violation('opcode-table-index-ne-opcode-number', dict(kind='opnames', build=v, number=num, expected=nm, found=names[num]), ''))
                 return
+
+    if ctx.k == 0:
+        # deterministic: depths 1..3, 40..41 and every depth around the machine's stack limit, two reducing opcodes (seed S7-C07 moved the limit of
+        # the call-threaded build by one)
+        for d in [1, 2, 3, 40, 41, 255, 256, 257, 511, 512, 513] + list(range(1015, 1032)) + [1100, 2000]:
+            for op in (6, 11):
+                case = dict(kind='deep', depth=d, op=op)
+                try:
+                    seen = judge_deep(case, drvs)
+                    rec.case(nontrivial_sig=json.dumps(case) if d > 40 else None, sample=None, deep_stack_programs=1,
+                             deep_stack_overflowed=any(v[1] != FINISHED for v in seen.values()))
+                except Violation as v:
+                    ctx.report(v, replay_case)
+                except Inconclusive:
+                    pass
 
     def make_prog(deco):
         @deco
